@@ -99,7 +99,8 @@ def run(tier):
     ck.add_tlc(rm, 'PegMachineMC (actions x memo schedules x both flavours)')
     if rm.violated:
         ck.violation({'kind': 'schedule', 'inputs': {'spec': 'PegMachineMC'}, 'expected': 'Refines, FramesBalanced, StepBound, CutContained',
-                      'observed': rm.violated, 'trace': rm.trace[:60]}, key='machine' + str(rm.violated))
+                      'observed': rm.violated, 'trace': [ln for ln in rm.trace if not ln.startswith('"RES')][:200]}, key='machine' + str(rm.violated))
+        return ck.finish()
     nmach = 0
     for mj, (ii, act, backend) in enumerate(mkey, 1):
         ci = 2 * ii + (0 if backend == 'model' else 1)
